@@ -56,6 +56,15 @@ End Spec.
 
 Arguments successes {P}. Arguments failure_lines {P}. Arguments any_remote {P}.
 
+(* The laws of combineProfiles that the merge-dependent theorems of C16 assume (named; to be
+   discharged by the C03/C07 merge model; proved for the toy instance in L_FetchToy). *)
+Definition combine_laws (P : Type) (combine : list P -> option P) (eqv : P -> P -> Prop) : Prop :=
+  (forall a, eqv a a) /\ (forall a b, eqv a b -> eqv b a) /\ (forall a b c, eqv a b -> eqv b c -> eqv a c) /\
+  (forall a a' b, eqv a a' -> opt_eqv P eqv (combine [a; b]) (combine [a'; b])) /\
+  (forall A B, A <> [] -> B <> [] ->
+    opt_eqv P eqv (match combine A, combine B with Some a, Some b => combine [a; b] | _, _ => None end) (combine (A ++ B)%list)).
+
+
 (* ---------------- decidable checker on the toy instance ---------------- *)
 Fixpoint tp_weight (l : list (string * Z)) (k : string) : Z :=
   match l with
@@ -115,3 +124,29 @@ Definition spec_check (srcs bases : list (source tprof)) (st : status) (psrc pba
         else true)
     && list_eqb String.eqb errs_s (failure_lines srcs)
     && list_eqb String.eqb errs_b (failure_lines bases).
+
+(* through fetchProfiles: the profile reported on is the merge of the fetched sources minus the
+   merge of the fetched bases (when both merges and the difference exist) *)
+Definition spec_fetch_check (srcs bases : list (source tprof)) (st_ok : bool) (st : status) (final : option tprof)
+           (errs_s errs_b : list string) : bool :=
+  let ss := successes srcs in
+  let sb := successes bases in
+  let mergeable_s := is_nil ss || match toy_combine ss with Some _ => true | None => false end in
+  let mergeable_b := is_nil sb || match toy_combine sb with Some _ => true | None => false end in
+  if negb (mergeable_s && mergeable_b) then true
+  else
+    let want := if is_nil ss then StNoSrc
+                else if negb (is_nil bases) && is_nil sb then StNoBase else StOk in
+    list_eqb String.eqb errs_s (failure_lines srcs)
+    && list_eqb String.eqb errs_b (failure_lines bases)
+    && (if status_eqb want StOk
+        then match merged tprof toy_combine srcs, merged tprof toy_combine bases with
+             | Some p, None => st_ok && toy_opt_eqvb final (Some p)
+             | Some p, Some b =>
+                 match toy_combine [p; toy_neg b] with
+                 | Some d => st_ok && toy_opt_eqvb final (Some d)
+                 | None => true       (* sources and bases cannot be compared: outside the statement *)
+                 end
+             | None, _ => false
+             end
+        else negb st_ok && status_eqb st want).
